@@ -45,7 +45,7 @@ import traceback
 from .. import boot, canon, pool
 
 ID = 'C09'
-BUDGET = {'quick': 300, 'thorough': 2400}
+BUDGET = {'quick': 600, 'thorough': 3000}
 
 T0 = 2000000000          # virtual file clock origin (in the future: parso never expires it)
 OLD = T0 - 1000          # mtime of a file "moved into place" (~o)
@@ -426,9 +426,10 @@ def _canon_name(d, root):
             d.description]
 
 
-def _battery(jedi, env, root):
-    """-> list (one entry per probe) of JSON observations."""
-    project = jedi.Project(root)
+def _battery(jedi, env, project, root):
+    """-> list (one entry per probe) of JSON observations.  A new Script per call; the Project
+    and the Environment are the caller's and live as long as the process (what an editor
+    plugin does)."""
     script = jedi.Script(MAIN, path=os.path.join(root, 'main.py'), environment=env,
                          project=project)
     obs = []
@@ -532,6 +533,7 @@ def _segment_child(hdir, events, first_step, last_step, out_path):
         fs.apply(e)
     out = []
     env = _new_env()
+    project = jedi.Project(root)
     try:
         for k in range(first_step, last_step + 1):
             if k == 0:
@@ -539,7 +541,7 @@ def _segment_child(hdir, events, first_step, last_step, out_path):
             else:
                 _disk_apply(root, fs.apply(events[k - 1]))
             _disk_check(root, fs)
-            obs = _battery(jedi, env, root)
+            obs = _battery(jedi, env, project, root)
             _stamp_pickles(cache_dir, fs.tick)
             out.append(obs)
     finally:
@@ -623,7 +625,7 @@ def _oracle_main(in_path, out_path):
         os.utime(dp, (T0, T0))
     env = _new_env()
     try:
-        obs = _battery(jedi, env, root)
+        obs = _battery(jedi, env, jedi.Project(root), root)
     finally:
         _kill_env(env)
     with open(out_path, 'w') as f:
@@ -710,8 +712,8 @@ def _work(task):
 def _families(tier):
     if tier == 'quick':
         return [('full16/depth<=2/dev<=1', FULL, 2, 1), ('core8/depth<=3/dev=0', CORE, 3, 0)]
-    return [('full16/depth<=2/dev<=1', FULL, 2, 1), ('core8/depth<=3/dev<=1', CORE, 3, 1),
-            ('full16/depth<=3/dev=0', FULL, 3, 0), ('core8/depth<=4/dev=0', CORE, 4, 0)]
+    return [('full16/depth<=2/dev<=1', FULL, 2, 1), ('full16/depth<=3/dev=0', FULL, 3, 0),
+            ('full16/depth<=3/dev<=1', FULL, 3, 1), ('core8/depth<=4/dev=0', CORE, 4, 0)]
 
 
 def run(ctx):
